@@ -21,12 +21,12 @@ def parse_inst_list(txt):
 class C01(PtgCheck):
     id = "C01"
     prop_file = "theories/Properties/Properties_C01.v"
-    theorems = ("C01_no_task_begins_twice", "C01_only_instances_run", "C01_begin_after_predecessors_ended",
+    theorems = ("C01_wf_program_is_first_match", "C01_no_task_begins_twice", "C01_only_instances_run", "C01_begin_after_predecessors_ended",
                 "C01_quiescent_all_done", "C01_complete_run_executes_each_instance_once", "C01_progress",
                 "C01_engine_generic")
     mode = "inst"
     level_text = ("Theorems over an AST of the JDF subset (PTG/PTGDefs.v) and an abstract dataflow engine (PTG/Engine.v): for "
-                  "EVERY program accepted by wf_program and EVERY schedule (arbitrary list of Startup / StartupOne / Begin / End events, "
+                  "EVERY program accepted by wf_first_match (first applicable input dependency wins; wf_program is the special case of exclusive guards) and EVERY schedule (arbitrary list of Startup / StartupOne / Begin / End events, "
                   "any number of tasks running at once) no task begins twice, only instances of the execution space begin, every "
                   "Begin comes after the End of all predecessors, and in every state where startup is complete and nothing is ready "
                   "or running every instance is done — hence any complete run executes the multiset `instances P`, each exactly once. "
@@ -40,7 +40,7 @@ class C01(PtgCheck):
                   "(every instance local); int32 arithmetic of the generated code is assumed not to overflow; no division by zero.")
     technique = ("Coq invariant proof over all schedules of an abstract dataflow engine instantiated with the JDF semantics + "
                  "observation-differential runs of generated JDF programs through parsec-ptgpp and the real runtime")
-    rule = ("programs drawn from DAG templates (chain, bcast_gather, diamond, split_merge, branch, pipeline2d, fan, tri, mixed) with random "
+    rule = ("programs drawn from DAG templates (firstmatch [overlapping input guards, mask-mode consumer fed twice by one producer], chain, bcast_gather, diamond, split_merge, branch, pipeline2d, fan, tri, mixed) with random "
             "sizes, negative/expression lower bounds, steps, derived locals, ternary/range dependencies, NEW/NULL, priorities, "
             "count_deps; each run under 2-3 configurations scheduler:threads[:startup_iter:startup_chunk]; startup-only programs with chunked startup; "
             "gather2: 1000-1500 successors with exactly two counter-tracked inputs from concurrent startup producers, 4-16 threads, 5 repetitions. "
@@ -54,8 +54,23 @@ class C01(PtgCheck):
 
     def cases(self):
         if self.tier == "quick":
-            return self.program_cases(22, 2) + self.program_cases(3, 3) + self.startup_cases(3) + self.gather_cases(3)
-        return self.program_cases(200, 4) + self.startup_cases(40) + self.gather_cases(24)
+            return (self.firstmatch_cases(4) + self.program_cases(22, 2) + self.program_cases(3, 3) + self.startup_cases(3)
+                    + self.gather_cases(3))
+        return self.firstmatch_cases(40) + self.program_cases(200, 4) + self.startup_cases(40) + self.gather_cases(24)
+
+    def firstmatch_cases(self, n):
+        """overlapping input guards, first match wins (wf_first_match): a mask-mode consumer whose flow A lists
+        `<- g ? X PROD(k)` before an unguarded/overlapping memory fallback while its flow B is released first by the
+        same producer; the last class (the readers KEEP) runs slow bodies in one of the configurations"""
+        r = self.rng
+        out = []
+        for _ in range(n):
+            p = jdfgen.gen_program(r, "firstmatch")
+            slow = ":-:-:0:1:%d:%s" % (r.pick([20000, 50000]), p.classes[-1].name)
+            c1 = "%s:%d%s" % (r.pick(ptg_scheds()), r.pick([1, 2, 4]), slow)
+            c2 = "%s:%d" % (r.pick(ptg_scheds()), r.pick([1, 4, 8]))
+            out.append("inst %s %s | %s" % (c1, c2, jdfgen.to_case(p)))
+        return out
 
     def gather_cases(self, n):
         """hundreds of successors with exactly two counter-tracked inputs whose producers are startup tasks,
